@@ -15,12 +15,15 @@ import (
 	"verif/astx"
 	"verif/corpus"
 	"verif/engine"
+	"verif/fmtx"
 	"verif/scanx"
 )
 
 type Case struct {
 	Src  string `json:"src,omitempty"`
 	File string `json:"file,omitempty"`
+	// Layout: a variant of a pool source with a blank or comment inserted at one token boundary
+	Layout bool `json:"layout,omitempty"`
 }
 
 func tname(n ast.Node) string { return strings.TrimPrefix(fmt.Sprintf("%T", n), "*ast.") }
@@ -224,7 +227,28 @@ func exprs(depth int) []string {
 }
 
 func stmtsFor(e string) []string {
-	return []string{"x := " + e, "echo " + e, "return " + e, "if " + e + " {\n}", "for v <- " + e + " {\n}", "a <- " + e, "f " + e + ", 1", "x = " + e + "\ny++"}
+	return []string{"x := " + e, "echo " + e, "return " + e, "if " + e + " {\n}", "for v <- " + e + " {\n}", "a <- " + e, "f " + e + ", 1", "x = " + e + "\ny++",
+		"f " + e + "...", "echo 1, " + e + "...", "f(" + e + "...)", "a <- " + e + "..."}
+}
+
+// layoutVariants inserts a blank, a tab and a block comment at every token boundary of src (sources of
+// at most maxTok tokens): spans must be exact however the tokens are spaced. A variant that no longer
+// parses is outside the premise and skipped by the caller.
+func layoutVariants(src string, maxTok int) []string {
+	bs := fmtx.Boundaries(src)
+	if len(bs) > maxTok+1 {
+		return nil
+	}
+	var out []string
+	for _, b := range bs {
+		if b == 0 {
+			continue
+		}
+		for _, ins := range []string{" ", "\t", " /*k*/ "} {
+			out = append(out, src[:b]+ins+src[b:])
+		}
+	}
+	return out
 }
 
 func main() {
@@ -261,13 +285,33 @@ func main() {
 			cases = append(cases, Case{Src: s})
 		}
 	}
+	maxTok := 40
+	if c.Thorough() {
+		maxTok = 120
+	}
+	base := len(cases)
+	for _, k := range cases[:base] {
+		if k.File != "" && !c.Thorough() {
+			continue // repository files get layout variants in the thorough tier
+		}
+		for _, v := range layoutVariants(k.Src, maxTok) {
+			cases = append(cases, Case{Src: v, Layout: true})
+		}
+	}
 	totalNodes := 0
 	for i, k := range cases {
 		c.Eval(1)
 		fs, nodes, parsed := check(k)
 		if !parsed {
-			c.Hist("skipped_parse_errors", 1)
+			if k.Layout {
+				c.Hist("layout_variant_outside_premise_does_not_parse", 1)
+			} else {
+				c.Hist("skipped_parse_errors", 1)
+			}
 			continue
+		}
+		if k.Layout {
+			c.Hist("layout_variants_checked", 1)
 		}
 		totalNodes += nodes
 		c.Nontrivial(k.Src)
@@ -284,7 +328,7 @@ func main() {
 		}
 	}
 	c.Extra["nodes_checked"] = totalNodes
-	c.Rule = fmt.Sprintf("every XGo-family file of the repository and %d hand seeds that parse without errors, plus every statement wrapping of the expression grammar closed to depth %d (%d expressions x 8 statement contexts); every node of every tree is checked. distinct_nontrivial = distinct sources that parsed cleanly", len(corpus.HandSeeds), depth, len(es))
+	c.Rule = fmt.Sprintf("every XGo-family file of the repository and %d hand seeds that parse without errors, plus every statement wrapping of the expression grammar closed to depth %d (%d expressions x 12 statement contexts), plus every such source of <= %d tokens with a blank, a tab or a block comment inserted at every token boundary; every node of every tree is checked. distinct_nontrivial = distinct sources that parsed cleanly", len(corpus.HandSeeds), depth, len(es), maxTok)
 	c.Assumptions = []string{
 		"necessary conditions only: Pos is a token start and End a token end of an independent scan, children nest/ordered/disjoint, stand-alone expression kinds re-parse to an equal tree",
 		"exempt: nodes inside string/domain-text literals (no independent tokens), implicit EmptyStmt, synthetic file name without package clause, shadow function parts, FuncType vs receiver/name overlap (go/ast convention)",
